@@ -9,6 +9,10 @@ from vlib import Infra
 def wrap_run(pid, tier, seed, kinds, targets, buildlen, wraplen, extra_env=None):
     run = nscheck.NsRun(pid, tier, seed)
     run.build()
+    return wrap_into(run, kinds, targets, buildlen, wraplen, extra_env)
+
+
+def wrap_into(run, kinds, targets, buildlen, wraplen, extra_env=None):
     for kind in kinds:
         for target in targets:
             if target == "orefafs" and kind.endswith("-sym"):
